@@ -8,8 +8,9 @@
 //	L;<baud>;<defs>;<builder>;<ifaces>;<obs>
 //	    defs:    `,`-separated default cycle times: CalculateBusLoad is called once per default on
 //	             the SAME bus, in this order
-//	    builder: 0 default CAN-ID builder, 1 message id only, 2 node id only, 3 no operations
-//	             (1-3 make the computed CAN-IDs of distinct messages collide)
+//	    builder: `<b>,<t>`; b: 0 default CAN-ID builder, 1 message id only, 2 node id only, 3 no
+//	             operations (1-3 make the computed CAN-IDs of distinct messages collide);
+//	             t: the BusType value set with Bus.SetType after the bus is built (0 = CAN 2.0A)
 //	    ifaces:  `|`-separated interfaces (`-` = none), each `<node id>=` followed by a
 //	             space-separated list of key:size:cycle:<message id>
 //	    obs:     one per call, `~`-separated:
@@ -49,6 +50,7 @@ type bspec struct {
 	baud, def int
 	more      []int // further default cycle times for further calls on the same bus
 	builder   int
+	typ       int   // BusType value: 0 = BusTypeCAN2A (the only constant the library defines)
 	nids      []int // node id per interface (nil: i+1)
 	ifaces    [][]mspec
 	family    string
@@ -93,7 +95,7 @@ func (b bspec) input() string {
 	for _, d := range b.defs() {
 		ds = append(ds, strconv.Itoa(d))
 	}
-	return fmt.Sprintf("L;%d;%s;%d;%s", b.baud, strings.Join(ds, ","), b.builder, s)
+	return fmt.Sprintf("L;%d;%s;%d,%d;%s", b.baud, strings.Join(ds, ","), b.builder, b.typ, s)
 }
 
 // build constructs the bus through the public API; msgOf maps the created messages to keys.
@@ -149,6 +151,10 @@ func build(b bspec) (*built, error) {
 			}
 		}
 	}
+	if b.typ != 0 {
+		// after the messages are in place: a bus of an undefined type refuses every message size
+		bus.SetType(acmelib.BusType(b.typ))
+	}
 	return bt, nil
 }
 
@@ -183,7 +189,22 @@ func ratStr(r *big.Rat) string {
 func specBits(size int) int64 {
 	return int64(size*8 + 19 + 25 + (34+size*8-1)/4)
 }
+
+// specTyp is the bus type the documented figures are computed for (set per bus by run); for an
+// undefined type the code uses 0 header / trailer / stuffing-base bits
+var specTyp = 0
+
 func specBps(m mspec, def int) *big.Rat {
+	if specTyp != 0 {
+		c := m.cycle
+		if c == 0 {
+			c = def
+		}
+		if c <= 0 {
+			return new(big.Rat)
+		}
+		return new(big.Rat).SetFrac(big.NewInt(int64(m.size*8+(m.size*8-1)/4)*1000), big.NewInt(int64(c)))
+	}
 	if m.cycle == 0 && def <= 0 {
 		return new(big.Rat)
 	}
@@ -288,10 +309,12 @@ func (s *state) run(b bspec) *big.Rat {
 	input := b.input()
 	msgs := b.msgs()
 	n := len(msgs)
+	specTyp = b.typ
 	bt, err := build(b)
 	if err != nil {
 		panic("harness: could not build the bus: " + err.Error() + " case " + input)
 	}
+	s.hist[fmt.Sprintf("bus-type/%d", b.typ)]++
 	before := bt.snapshot()
 	for i, m := range bt.msgs {
 		if m.CycleTime() != msgs[i].cycle || m.SizeByte() != msgs[i].size {
@@ -489,7 +512,11 @@ func (s *state) checkCall(b bspec, def int, input string, res result) *big.Rat {
 		}
 	}
 	if nan {
-		s.fail("nan", n, fmt.Sprintf("NaN/Inf among the returned figures; case %s", input))
+		kind := "nan"
+		if b.typ != 0 {
+			kind = "nan-unknown-bus-type"
+		}
+		s.fail(kind, n, fmt.Sprintf("NaN/Inf among the returned figures (bus type %d); case %s", b.typ, input))
 	} else if n > 0 && permOK {
 		// share of the total, on the implementation's own numbers
 		for i := range res.keys {
@@ -525,13 +552,23 @@ func ratFloat(r *big.Rat) float64 { f, _ := r.Float64(); return f }
 // monotonicity: re-run with one message enlarged / its cycle shortened
 func (s *state) monotone(r *rng, b bspec, load *big.Rat) {
 	msgs := b.msgs()
-	if load == nil || len(msgs) == 0 || b.baud <= 0 || b.def <= 0 {
+	if len(msgs) == 0 || b.def <= 0 || b.typ != 0 || (load == nil && b.baud != 0) {
 		return
+	}
+	// the property claims this for every non-zero baud rate; the theorems need 0 < baud
+	// (monotone_size_pos_baud / antitone_cycle_pos_baud), a negative baud rate refutes the claim
+	// (monotone_negative_baud_refuted) and a zero one keeps the load at 0 (monotone_zero_baud)
+	suffix := ""
+	switch {
+	case b.baud < 0:
+		suffix = "-negative-baud"
+	case b.baud == 0:
+		suffix = "-zero-baud"
 	}
 	n := len(msgs)
 	pick := msgs[r.below(n)].key
 	variant := func(f func(m *mspec)) bspec {
-		v := bspec{baud: b.baud, def: b.def, family: b.family, builder: b.builder, nids: b.nids}
+		v := bspec{baud: b.baud, def: b.def, family: b.family, builder: b.builder, nids: b.nids, typ: b.typ}
 		for _, i := range b.ifaces {
 			ni := append([]mspec{}, i...)
 			for j := range ni {
@@ -547,7 +584,7 @@ func (s *state) monotone(r *rng, b bspec, load *big.Rat) {
 		if l2 == nil {
 			return false
 		}
-		slack := new(big.Rat).Mul(load, new(big.Rat).SetFrac(big.NewInt(int64(n)), new(big.Int).Lsh(big.NewInt(1), 50)))
+		slack := new(big.Rat).Mul(new(big.Rat).Abs(load), new(big.Rat).SetFrac(big.NewInt(int64(n)), new(big.Int).Lsh(big.NewInt(1), 50)))
 		return new(big.Rat).Add(l2, slack).Cmp(load) >= 0
 	}
 	var old mspec
@@ -561,9 +598,10 @@ func (s *state) monotone(r *rng, b bspec, load *big.Rat) {
 		v := variant(func(m *mspec) { m.size = ns })
 		v.family = "monotone-size"
 		l2 := s.run(v)
-		s.hist["monotone/size-checked"]++
-		if !lower(l2) {
-			s.fail("monotone-size", n, fmt.Sprintf("enlarging message key %d from %d to %d bytes lowers the load from %v to %v; case %s", pick, old.size, ns, ratFloat(load), ratStr(l2), b.input()))
+		s.hist["monotone/size-checked"+suffix]++
+		// zero baud: both loads are 0 (checked call by call as `zero-baud`), nothing decreases
+		if b.baud != 0 && !lower(l2) {
+			s.fail("monotone-size"+suffix, n, fmt.Sprintf("enlarging message key %d from %d to %d bytes lowers the load from %v to %v; case %s", pick, old.size, ns, ratFloat(load), ratStr(l2), b.input()))
 		}
 	}
 	eff := old.cycle
@@ -578,9 +616,9 @@ func (s *state) monotone(r *rng, b bspec, load *big.Rat) {
 		v := variant(func(m *mspec) { m.cycle = nc })
 		v.family = "antitone-cycle"
 		l2 := s.run(v)
-		s.hist["monotone/cycle-checked"]++
-		if !lower(l2) {
-			s.fail("antitone-cycle", n, fmt.Sprintf("shortening the cycle of message key %d from %d to %d ms lowers the load from %v to %v; case %s", pick, eff, nc, ratFloat(load), ratStr(l2), b.input()))
+		s.hist["monotone/cycle-checked"+suffix]++
+		if b.baud != 0 && !lower(l2) {
+			s.fail("antitone-cycle"+suffix, n, fmt.Sprintf("shortening the cycle of message key %d from %d to %d ms lowers the load from %v to %v; case %s", pick, eff, nc, ratFloat(load), ratStr(l2), b.input()))
 		}
 	}
 }
@@ -797,7 +835,8 @@ func main() {
 		b := parseCase(rp)
 		// map iteration order is random: repeat the call so that order-dependent outcomes show
 		for i := 0; i < 40; i++ {
-			s.run(b)
+			l := s.run(b)
+			s.monotone(r, b, l)
 		}
 	} else {
 		nb := 500
@@ -818,6 +857,12 @@ func main() {
 			{baud: 0, def: -1, family: "fixed", ifaces: [][]mspec{{{0, 8, 10, 0}}}},
 			{baud: 500000, def: 0, family: "fixed", ifaces: [][]mspec{{{0, 8, 10, 0}}}},
 			{baud: 500000, def: -1, family: "fixed", ifaces: [][]mspec{{{0, 8, 10, 0}}}},
+			// outside the theorems' hypotheses: negative baud rate, undefined bus type with empty messages
+			{baud: -250000, def: 500, family: "fixed", ifaces: [][]mspec{{{0, 8, 100, 0}, {1, 8, 10, 0}}, {}, {{2, 0, 0, 0}}}},
+			{baud: 0, def: 500, family: "fixed", ifaces: [][]mspec{{{0, 8, 100, 0}, {1, 0, 0, 0}}}},
+			{baud: 500000, def: 100, typ: 1, family: "fixed", ifaces: [][]mspec{{{0, 0, 10, 0}}}},
+			{baud: 500000, def: 100, typ: 1, family: "fixed", ifaces: [][]mspec{{{0, 0, 10, 0}, {1, 0, 0, 0}}, {{2, 0, 7, 0}}}},
+			{baud: 500000, def: 100, typ: 1, family: "fixed", ifaces: [][]mspec{{{0, 0, 10, 0}, {1, 3, 0, 0}}}},
 			// several calls on the same bus with different defaults (and the same one twice)
 			{baud: 500000, def: 100, more: []int{250, 100, 0, 250, -1, 7}, family: "fixed", ifaces: [][]mspec{{{0, 8, 0, 0}, {1, 4, 0, 0}, {2, 8, 10, 0}}}},
 			{baud: 125000, def: 1, more: []int{3600000, 1}, family: "fixed", ifaces: [][]mspec{{{0, 0, 0, 0}}, {{1, 8, 0, 0}}}},
@@ -884,7 +929,11 @@ func atoi(x string) int {
 func parseCase(line string) bspec {
 	f := strings.Split(line, ";")
 	ds := strings.Split(f[2], ",")
-	b := bspec{baud: atoi(f[1]), def: atoi(ds[0]), builder: atoi(f[3]), family: "replay"}
+	bt := strings.Split(f[3], ",")
+	b := bspec{baud: atoi(f[1]), def: atoi(ds[0]), builder: atoi(bt[0]), family: "replay"}
+	if len(bt) > 1 {
+		b.typ = atoi(bt[1])
+	}
 	for _, d := range ds[1:] {
 		b.more = append(b.more, atoi(d))
 	}
